@@ -258,6 +258,23 @@ func c06Build(template string) (*c06Prog, bool) {
 		u2, t2 := p.text(o3, "", nil)
 		l2 := p.cmdWith(u2, "@"+t2)
 		w("mapscripts %s {\n  %s {\n    %s\n  }\n  %s [\n    VAR_A, 1 {\n      %s\n    }\n  ]\n  %s {\n    %s\n  }\n}", m.Placeholder(), ty1.Placeholder(), l0, ty2.Placeholder(), l1, ty3.Placeholder(), l2)
+	case "mapscripts-moves":
+		m := p.atoms.New(ClsUserName, "map", "names")
+		ty1 := p.atoms.New(ClsIdent, "mstype", "mstypes")
+		ty2 := p.atoms.New(ClsIdent, "mstype", "mstypes")
+		ty3 := p.atoms.New(ClsIdent, "mstype", "mstypes")
+		o1 := func() interp.Value { return cat(m.Val, "_", ty1.Val) }
+		o2 := func() interp.Value { return cat(m.Val, "_", ty2.Val, "_0") }
+		o3 := func() interp.Value { return cat(m.Val, "_", ty3.Val) }
+		u0, m0 := p.moves(o1, 1)
+		l0 := p.cmdWith(u0, "@"+m0)
+		u1, m1 := p.moves(o2, 2)
+		l1 := p.cmdWith(u1, "a", "@"+m1)
+		u2, m2 := p.moves(o3, 1)
+		l2 := p.cmdWith(u2, "@"+m2)
+		u3, t3 := p.text(o3, "", nil)
+		l3 := p.cmdWith(u3, "@"+t3)
+		w("mapscripts %s {\n  %s {\n    %s\n  }\n  %s [\n    VAR_A, 1 {\n      %s\n    }\n  ]\n  %s {\n    %s\n    %s\n  }\n}", m.Placeholder(), ty1.Placeholder(), l0, ty2.Placeholder(), l1, ty3.Placeholder(), l2, l3)
 	case "moves-two":
 		s, o := script()
 		u0, m0 := p.moves(o, 2)
@@ -470,7 +487,11 @@ func endsWithSpace(v interp.Value) bool {
 // c06ClashCase: a user-defined text (or movement) whose name is a free
 // String atom: if it can equal a generated label the program must be
 // rejected, never silently overwritten.
-func c06ClashCase(kind string) *Case {
+func c06ClashCase(kind string) *Case { return c06ClashCaseAt(kind, false) }
+
+// c06ClashCaseAt: userFirst puts the user-defined statement before the script
+// whose generated label it may equal.
+func c06ClashCaseAt(kind string, userFirst bool) *Case {
 	atoms := &AtomTable{Coded: false}
 	sname := atoms.New(ClsIdent, "script", "")
 	uname := atoms.New(ClsIdent, "user", "")
@@ -484,8 +505,14 @@ func c06ClashCase(kind string) *Case {
 		src = fmt.Sprintf("script %s {\n  %s(moves(walk_up))\n}\nmovement %s {\n  walk_down\n}", sname.Placeholder(), cmd.Placeholder(), uname.Placeholder())
 		gen = func() interp.Value { return cat(sname.Val, "_Movement_0") }
 	}
+	name := "clash-" + kind
+	if userFirst {
+		i := strings.Index(src, "\n}\n") + 3
+		src = src[i:] + "\n" + src[:i-1]
+		name += "-user-statement-first"
+	}
 	prog := &Program{Atoms: atoms, Tops: []interface{}{&TopRaw{Text: src}}}
-	cs := &Case{Name: "c06/clash-" + kind, Prog: prog, Variants: optVariants[:1], NonTrivial: true, Shape: c06Shape{Template: "clash-" + kind}, MaxPaths: 64}
+	cs := &Case{Name: "c06/" + name, Prog: prog, Variants: optVariants[:1], NonTrivial: true, Shape: c06Shape{Template: name}, MaxPaths: 64}
 	cs.Setup = func(x *OracleCtx) {
 		if !x.Replay {
 			x.C.Assume(fmt.Sprintf("(distinct %s %s)", sname.Var, uname.Var))
@@ -518,7 +545,7 @@ func c06ClashCase(kind string) *Case {
 }
 
 var c06Templates = []string{"one", "second-arg", "two", "types", "same-content-different-type", "two-scripts", "control-flow", "switch",
-	"autovar-chain", "autovar-group", "poryswitch-selected", "poryswitch-fallback", "poryswitch-selected-without-text", "mapscripts", "moves-two", "moves-and-text"}
+	"autovar-chain", "autovar-group", "poryswitch-selected", "poryswitch-fallback", "poryswitch-selected-without-text", "mapscripts", "mapscripts-moves", "moves-two", "moves-and-text"}
 
 // RunC06 is the check of property C06.
 func RunC06(env *Env, rep *Report) {
@@ -526,10 +553,10 @@ func RunC06(env *Env, rep *Report) {
 	for _, t := range c06Templates {
 		cases = append(cases, c06Case(t))
 	}
-	cases = append(cases, c06PairCase(), c06ClashCase("text"), c06ClashCase("movement"))
+	cases = append(cases, c06PairCase(), c06ClashCase("text"), c06ClashCase("movement"), c06ClashCaseAt("text", true), c06ClashCaseAt("movement", true))
 	rep.Technique = "symbolic execution of the real inline-text / moves() hoisting (go/ssa) with symbolic contents; the sharing pattern (which contents are equal) is enumerated by the solver through the parser's own set lookups (z3 seq + LIA)"
 	rep.Explanation = "Bounded symbolic verification, not a proof. Program templates placing inline texts and moves() in every position the property names (plain command, later argument, two in one command, inside if/else/while, switch, an autovar condition in an &&-chain and in a parenthesised group, a poryswitch case selected / not selected, inline map scripts incl. table rows, several scripts) are compiled by symbolic execution of the real code with the text contents as unconstrained SMT strings, string types none/ascii/braille/symbolic, step names symbolic. The parser's dedup lookups (inlineTextsSet / inlineMovementsSet) and the terminator test are decision points, so the solver enumerates every equality pattern among the contents and every 'already terminated' combination. Per path the oracle recomputes - forking on any equality the code did not decide - the expected label of every use (first appearance numbering per owning script, shared iff same final content and same type) and asserts: the command carries exactly that label; the label is defined exactly once with exactly that content and directive; nothing else is hoisted; no command is left with an empty argument. Two clash cases use String-sorted names so that 'user text/movement name = generated label' is found by the solver: it must be a compile error."
-	rep.Bounds = map[string]interface{}{"templates": append(append([]string{}, c06Templates...), "typed-then-untyped-one-command", "clash-text", "clash-movement"), "max_inline_texts_per_program": 3, "max_moves_per_program": 2}
+	rep.Bounds = map[string]interface{}{"templates": append(append([]string{}, c06Templates...), "typed-then-untyped-one-command", "clash-text", "clash-movement", "clash-text-user-statement-first", "clash-movement-user-statement-first"), "max_inline_texts_per_program": 3, "max_moves_per_program": 2}
 	rep.Outside = []string{"more than 3 inline texts / 2 moves() per program", "format() texts (C07)", "text contents outside printable ASCII"}
 	rep.Assumptions = []string{"text contents are printable ASCII without '\"'", "names are generic identifiers (Int-coded) except in the clash cases"}
 	rep.Functions = []string{"parseCommandStatement", "addImplicitData", "addImplicitTexts", "addImplicitMovements", "getMovementsKey", "getImplicitTextLabel", "getImplicitMovementLabel", "ParseProgram", "formatTextTerminator", "emitText", "emitMovementStatement", "parseMovesOperator", "parsePoryswitchStatement", "parseMapscriptsStatement"}
